@@ -3,8 +3,8 @@
 (* 3 flavour numbers, in every order (permuted, unsorted, spanning 1-3 nf), with and   *)
 (* without an explicit target grid.                                                    *)
 EXTENDS Lhapdf
-VARIABLES eg, tgt, g, info, blocks
-vars == <<eg, tgt, g, info, blocks>>
+VARIABLES eg, tgt, g, info, blocks, ovl
+vars == <<eg, tgt, g, info, blocks, ovl>>
 CONSTANT MaxRank
 Points == (1..MaxRank) \X {3, 4, 5}
 Xs == {1, 3, 5}          \* ranks of the card's x grid
@@ -15,12 +15,13 @@ Init == /\ \E n \in 1..4 : eg \in {s \in [1..n -> Points] : \A i, j \in 1..n : i
         /\ g = Groups(eg)
         /\ info = InfoOfG(eg, g, Xs, Written(tgt), 2)
         /\ blocks = BlocksOfG(g, Written(tgt))
+        /\ ovl = OverlappingG(g)
 Next == UNCHANGED vars
 
-InvQRange == ~OverlappingG(g) => C45_QRange(info, blocks)
-InvXRange == ~OverlappingG(g) => C45_XRange(info, blocks)
+InvQRange == ~ovl => C45_QRange(info, blocks)
+InvXRange == ~ovl => C45_XRange(info, blocks)
 InvAlphaQs == C45_AlphaQs(info, blocks)
 InvNodes == C45_NodesG(g, blocks) /\ C45_Target(Written(tgt), blocks)
 (* alpha_s nodes are ascending exactly when the grid is accepted                        *)
-InvAscending == ~OverlappingG(g) => \A i \in 1..(Len(info.alphaQs) - 1) : info.alphaQs[i] <= info.alphaQs[i + 1]
+InvAscending == ~ovl => \A i \in 1..(Len(info.alphaQs) - 1) : info.alphaQs[i] <= info.alphaQs[i + 1]
 =============================================================================
